@@ -28,6 +28,9 @@ def _scan_order(ctx, rule, site, cons, it, ibinder, count_term):
 
 def check_onehot(ctx):
     comp = Component(ctx.repo, ELAB, "OneHotRoundRobin", rule="C39")
+    from . import ranges as _rg1
+
+    _rg1.port_declarations(ctx, "C39", comp, "OneHotRoundRobin", [("requests", "bits", "self.count", "one request bit per requester"), ("grant", "bits", "self.count", "one grant bit per requester")])
     comp.require_modelled("C39")
     cnt = pat("self.count")
     seen = {"reg": 0, "const": 0, "zero": 0, "other": 0}
@@ -96,6 +99,9 @@ def pat_is_none(b):
 def check_binary(ctx):
     comp = Component(ctx.repo, ELAB, "RoundRobin", rule="C39")
     comp.require_modelled("C39")
+    from . import ranges as _rg
+
+    _rg.port_declarations(ctx, "C39", comp, "RoundRobin", [("requests", "bits", "self.count", "one request bit per requester"), ("grant", "index", "self.count", "the index of any requester")])
     ex = one_config(comp, "C39")
     cnt = pat("self.count")
     ws = [h for h in ex.of(HwAssign) if h.lhs == pat("self.grant")]
@@ -129,6 +135,9 @@ def check_binary(ctx):
 
 
 def check(ctx):
+    from . import ohs
+
+    ohs.one_hot_switch_dynamic(ctx, "C39")
     ctx.use(ELAB)
     check_onehot(ctx)
     check_binary(ctx)
